@@ -500,6 +500,135 @@ theorem tie_progRestHandler (v : Verdict) (q : SiteReq) :
   rw [hc]
   cases v <;> simp [restTable, siteEvents, Site.rejectRet]
 
+/-! ### which predicate reaches `doReq` from every call site (typed forwards, followed in Lean)
+
+Every `Do*` method of `circuitBreaker`, every package-level `Do*` of breakers.go and the breaker call of every site are
+extracted as typed forwards (`Fwd`: parameter names, method called, argument list).  `reachCb` / `reachPkg` follow a
+call down to `doReq(req, fallback, acceptable)` substituting actual arguments for parameters, so the predicate that
+REACHES the window accounting is computed from the source — an entry point that drops it (`DoCtx` instead of
+`DoWithAcceptableCtx`), forwards the wrong parameter, or a Ctx variant that forwards to the wrong plain variant
+changes the result. -/
+
+def substArg (params actuals : List String) (a : String) : String :=
+  match (params.zip actuals).find? (fun p => p.1 = a) with
+  | some p => p.2
+  | none => a
+
+def cbTable (m : String) : Option Fwd :=
+  if m = "Do" then some fwdCbDo else if m = "DoCtx" then some fwdCbDoCtx
+  else if m = "DoWithAcceptable" then some fwdCbDoWithAcceptable
+  else if m = "DoWithAcceptableCtx" then some fwdCbDoWithAcceptableCtx
+  else if m = "DoWithFallback" then some fwdCbDoWithFallback
+  else if m = "DoWithFallbackCtx" then some fwdCbDoWithFallbackCtx
+  else if m = "DoWithFallbackAcceptable" then some fwdCbDoWithFallbackAcceptable
+  else if m = "DoWithFallbackAcceptableCtx" then some fwdCbDoWithFallbackAcceptableCtx
+  else none
+
+def pkgTable (m : String) : Option Fwd :=
+  if m = "Do" then some fwdPkgDo else if m = "DoCtx" then some fwdPkgDoCtx
+  else if m = "DoWithAcceptable" then some fwdPkgDoWithAcceptable
+  else if m = "DoWithAcceptableCtx" then some fwdPkgDoWithAcceptableCtx
+  else if m = "DoWithFallback" then some fwdPkgDoWithFallback
+  else if m = "DoWithFallbackCtx" then some fwdPkgDoWithFallbackCtx
+  else if m = "DoWithFallbackAcceptable" then some fwdPkgDoWithFallbackAcceptable
+  else if m = "DoWithFallbackAcceptableCtx" then some fwdPkgDoWithFallbackAcceptableCtx
+  else none
+
+/-- follow a method of `circuitBreaker` down to `doReq`: its actual `(req, fallback, acceptable)` -/
+def reachCb : Nat → String → List String → Option (List String)
+  | 0, _, _ => none
+  | n + 1, m, actuals =>
+    if m = "doReq" then some actuals else
+    match cbTable m with
+    | none => none
+    | some f =>
+      if f.params.length ≠ actuals.length then none
+      else reachCb n f.method (f.args.map (substArg f.params actuals))
+
+/-- a package-level `breaker.Do*(…, name, …)`: one hop to the method of the named breaker, then `reachCb` -/
+def reachPkg (m : String) (actuals : List String) : Option (List String) :=
+  match pkgTable m with
+  | none => none
+  | some f =>
+    if f.params.length ≠ actuals.length then none
+    else reachCb 4 f.method (f.args.map (substArg f.params actuals))
+
+/-- **all sixteen entry points** (8 methods, 8 package-level functions; placeholders R = request, F = fallback,
+A = predicate, N = name): the request always arrives as the request; the fallback / predicate arrive iff the entry point
+has such a parameter, else `nil` / `defaultAcceptable` -/
+theorem tie_entryReach :
+    reachCb 4 "Do" ["R"] = some ["R", "nil", "defaultAcceptable"]
+    ∧ reachCb 4 "DoCtx" ["ctx", "R"] = some ["R", "nil", "defaultAcceptable"]
+    ∧ reachCb 4 "DoWithAcceptable" ["R", "A"] = some ["R", "nil", "A"]
+    ∧ reachCb 4 "DoWithAcceptableCtx" ["ctx", "R", "A"] = some ["R", "nil", "A"]
+    ∧ reachCb 4 "DoWithFallback" ["R", "F"] = some ["R", "F", "defaultAcceptable"]
+    ∧ reachCb 4 "DoWithFallbackCtx" ["ctx", "R", "F"] = some ["R", "F", "defaultAcceptable"]
+    ∧ reachCb 4 "DoWithFallbackAcceptable" ["R", "F", "A"] = some ["R", "F", "A"]
+    ∧ reachCb 4 "DoWithFallbackAcceptableCtx" ["ctx", "R", "F", "A"] = some ["R", "F", "A"]
+    ∧ reachPkg "Do" ["N", "R"] = some ["R", "nil", "defaultAcceptable"]
+    ∧ reachPkg "DoCtx" ["ctx", "N", "R"] = some ["R", "nil", "defaultAcceptable"]
+    ∧ reachPkg "DoWithAcceptable" ["N", "R", "A"] = some ["R", "nil", "A"]
+    ∧ reachPkg "DoWithAcceptableCtx" ["ctx", "N", "R", "A"] = some ["R", "nil", "A"]
+    ∧ reachPkg "DoWithFallback" ["N", "R", "F"] = some ["R", "F", "defaultAcceptable"]
+    ∧ reachPkg "DoWithFallbackCtx" ["ctx", "N", "R", "F"] = some ["R", "F", "defaultAcceptable"]
+    ∧ reachPkg "DoWithFallbackAcceptable" ["N", "R", "F", "A"] = some ["R", "F", "A"]
+    ∧ reachPkg "DoWithFallbackAcceptableCtx" ["ctx", "N", "R", "F", "A"] = some ["R", "F", "A"] := by decide
+
+/-- **every call site**: the wrapped request closure reaches `doReq` as the request, no fallback, and the predicate
+is the site's own: redis `acceptable` (single commands AND pipelines), `codes.Acceptable` at the zrpc client,
+`serverSideAcceptable` at both zrpc server interceptors, `db.acceptable` at sqlx Exec / Prepare / Transact, the closure
+(`scanFailed || db.acceptable(err)` resp. `s.accept(err)`, tied by `tie_sqlxPreds`) at the sqlx query / statement sites -/
+theorem tie_siteReach :
+    reachCb 4 siteCallRedisProcess.method siteCallRedisProcess.args = some ["<closure>", "nil", "acceptable"]
+    ∧ reachCb 4 siteCallRedisPipeline.method siteCallRedisPipeline.args = some ["<closure>", "nil", "acceptable"]
+    ∧ reachPkg siteCallZrpcClient.method siteCallZrpcClient.args = some ["<closure>", "nil", "codes.Acceptable"]
+    ∧ reachPkg siteCallZrpcServerUnary.method siteCallZrpcServerUnary.args = some ["<closure>", "nil", "serverSideAcceptable"]
+    ∧ reachPkg siteCallZrpcServerStream.method siteCallZrpcServerStream.args = some ["<closure>", "nil", "serverSideAcceptable"]
+    ∧ reachCb 4 siteCallSqlExec.method siteCallSqlExec.args = some ["<closure>", "nil", "db.acceptable"]
+    ∧ reachCb 4 siteCallSqlPrepare.method siteCallSqlPrepare.args = some ["<closure>", "nil", "db.acceptable"]
+    ∧ reachCb 4 siteCallSqlTransact.method siteCallSqlTransact.args = some ["<closure>", "nil", "db.acceptable"]
+    ∧ reachCb 4 siteCallSqlQueryRows.method siteCallSqlQueryRows.args = some ["<closure>", "nil", "<closure>"]
+    ∧ reachCb 4 siteCallStmtExec.method siteCallStmtExec.args = some ["<closure>", "nil", "<closure>"]
+    ∧ reachCb 4 siteCallStmtQueryRows.method siteCallStmtQueryRows.args = some ["<closure>", "nil", "<closure>"] := by decide
+
+/-- the named predicates of the sites, as translated from their sources, over the error classes -/
+def predByName (n : String) : Option (ErrClass → Bool) :=
+  if n = "acceptable" then some fun e => predRedisAcceptable (e = .none) e.is e.as noS noS noS noS
+  else if n = "defaultAcceptable" then some fun e => predDefaultAcceptable (e = .none) noS noS noS noS noS noS
+  else if n = "codes.Acceptable" then
+    some fun e => predCodesAcceptable false noS noS noS noS noS (fun c => codeOfName c = some e.grpcCode)
+  else if n = "serverSideAcceptable" then
+    some fun e => predServerSideAcceptable (e = .none) e.is e.as (fun c => c = "codes.Acceptable" && codeAcceptable e.grpcCode) noS noS noS
+  else none
+
+/-- what a site records for an error of class `e`: follow the site's call to `doReq`, take the predicate that arrives,
+evaluate its translation -/
+def sitePredVia (reach : Option (List String)) (e : ErrClass) : Option Bool :=
+  match reach with
+  | some [_, fb, p] => if fb = "nil" then (predByName p).map (· e) else none
+  | _ => none
+
+/-- **redis hooks, zrpc client, zrpc server — call site → entry point → `doReq` → predicate, for every error class**:
+the predicate that reaches the accounting, evaluated as translated from its source, is `Site.pred`.  (With `DoCtx` in
+the pipeline hook `defaultAcceptable` arrives and the statement fails at `redis.Nil` / `context.Canceled`.) -/
+theorem tie_sitePredReaches (e : ErrClass) :
+    sitePredVia (reachCb 4 siteCallRedisProcess.method siteCallRedisProcess.args) e = some (Site.redisProcess.pred { err := e })
+    ∧ sitePredVia (reachCb 4 siteCallRedisPipeline.method siteCallRedisPipeline.args) e = some (Site.redisPipeline.pred { err := e })
+    ∧ sitePredVia (reachPkg siteCallZrpcClient.method siteCallZrpcClient.args) e = some (Site.zrpcClient.pred { err := e })
+    ∧ sitePredVia (reachPkg siteCallZrpcServerUnary.method siteCallZrpcServerUnary.args) e = some (Site.zrpcServerUnary.pred { err := e })
+    ∧ sitePredVia (reachPkg siteCallZrpcServerStream.method siteCallZrpcServerStream.args) e = some (Site.zrpcServerStream.pred { err := e }) := by
+  obtain ⟨h1, h2, h3, h4, h5, _⟩ := tie_siteReach
+  rw [h1, h2, h3, h4, h5]
+  have hr := tie_predRedisAcceptable e
+  have hs := tie_predServerSideAcceptable e
+  have hc := tie_predCodesAcceptable e.grpcCode
+  refine ⟨?_, ?_, ?_, ?_, ?_⟩
+  · simp only [sitePredVia, predByName]; simp [hr.1]
+  · simp only [sitePredVia, predByName]; simp [hr.1, hr.2]
+  · simp only [sitePredVia, predByName]; simp [hc, Site.pred]
+  · simp only [sitePredVia, predByName]; simp [hs.1]
+  · simp only [sitePredVia, predByName]; simp [hs.1, hs.2]
+
 /-! ### meta-properties of the interpreter (`Prog.run`): what remains trusted is the token translation
 
 The interpreter is hand-written; these theorems are about it for ALL programs / states, not about one program. -/
